@@ -426,6 +426,15 @@ func localDef(info *types.Info, fi *FuncInfo, id *ast.Ident) ast.Expr {
 				}
 			}
 		}
+		// var name = value
+		if vs, ok := n.(*ast.ValueSpec); ok && len(vs.Names) == len(vs.Values) {
+			for i, nm := range vs.Names {
+				if obj != nil && info.Defs[nm] == obj && nm != id {
+					def = vs.Values[i]
+					cnt++
+				}
+			}
+		}
 		return true
 	})
 	if cnt == 0 {
